@@ -2,5 +2,15 @@
 import enginecheck as ec
 from props import engcommon
 LEVEL = 'proof'; TRUSTED = engcommon.TRUSTED_ENGINE; ASSUMPTIONS = engcommon.ASSUMPTIONS_ENGINE
+def real_binary(ctx):
+    import os, vlib, realbin
+    d = vlib.build_impl('plain'); ninja = os.path.join(d, 'ninja')
+    known = {k.get('id') for k in ctx.known_list if k.get('property') == 'C06'}
+    for w in realbin.load_limit(ninja, os.path.join(d, 'libfakeload.so')):
+        ctx.violation('load-limit', 'real binary: tools/realbin.py load_limit\n', w)
+    for name, w in realbin.jobserver_tokens(ninja):
+        ctx.violation(name, 'real binary: tools/realbin.py jobserver_tokens\n', w)
+
 def run(ctx):
+    real_binary(ctx)
     engcommon.run_engine_property(ctx, 'C06', plan_accept=600, oracles=[('limits', lambda h, st, b, prev: ec.oracle_c06(h, st, b))], faults=0.3, feat=dict(pools=0.8, dyndep=0.35))
